@@ -328,7 +328,7 @@ def emu_cases(cases, arch):
     for c in cases:
         if " cpu=" in c or " be=avx2" in c or " isa=avx2" in c or " be=swar" in c or " low=1" in c:
             continue
-        if " isa=portable" in c:
+        if " isa=portable" in c or c.startswith("avail "):
             continue
         c = c.replace(" be=sse2", f" be={arch}").replace(" isa=sse2", f" isa={arch}")
         if " be=top" in c or c.startswith(("mm ", "mmiter ", "hist ", "pfprefilter ")):
